@@ -131,7 +131,9 @@ func (p *Parser) ParseFile(filename string, varPool *VarPool) (*MetaData, []*Bui
 	}
 
 	for _, f := range pkg.Syntax {
-		if f == nil {
+		// Imports of generated files (previous outputs among them) must not
+		// influence the names chosen for this run.
+		if f == nil || ast.IsGenerated(f) {
 			continue
 		}
 
